@@ -172,11 +172,6 @@ class Paraxial:
             float: exit pupil location relative to the image surface
         """
         stop_index = self.surfaces.stop_index
-        num_surfaces = len(self.surfaces.surfaces)
-        if stop_index == num_surfaces-2:
-            positions = self.optic.surface_group.positions
-            loc_relative = positions[-2] - positions[-1]
-            return loc_relative[0]
 
         z_start = self.surfaces.positions[stop_index]
         wavelength = self.optic.primary_wavelength
